@@ -89,7 +89,9 @@ class Hist:
         s = (id(l.slices), id(l.charges), l.slices.tobytes(), l.charges.tobytes(), int(l.qconj), bool(l.sorted),
              bool(l.bunched), int(l.ind_len), int(l.block_number), id(l.chinfo))
         if isinstance(l, self.LegPipe):
-            s += (tuple(id(x) for x in l.legs), l.q_map.tobytes(), l.q_map_slices.tobytes())
+            s += (tuple(id(x) for x in l.legs), l.q_map.tobytes(), l.q_map_slices.tobytes(),
+                  None if l._perm is None else np.asarray(l._perm).tobytes(), np.asarray(l._strides).tobytes(),
+                  tuple(int(x) for x in l.subshape), tuple(int(x) for x in l.subqshape))
         return s
 
     def note_leg(self, l):
@@ -1269,20 +1271,50 @@ class Walk:
     def op_linalg(self):
         """factorisations and matrix functions are not in place: operands unchanged (they may be re-sorted / made contiguous)"""
         H, rng = self.H, self.rng
-        i = self.pick(lambda a: a.rank == 2)
+        # operands whose legs are already blocked by charge are handed to the kernels as they are (`as_completely_blocked`
+        # returns `self`): the new inner legs are then derived directly from the operand's SHARED leg objects
+        blocked = [k for k, x in enumerate(H.A) if self.usable(x) and x.rank == 2 and all(l.is_blocked() for l in x.legs)]
+        if blocked and rng.random() < 0.7:
+            i = rng.choice(blocked)
+        else:
+            i = self.pick(lambda a: a.rank == 2)
         a = H.A[i]
-        f = rng.choice(['svd', 'qr', 'lq', 'eigh', 'eig', 'expm', 'pinv', 'polar', 'eigvalsh', 'eigvals', 'eigvals', 'speigs', 'speigs', 'inner', 'trace', 'outer_self', 'matvec'])
+        f = rng.choice(['svd', 'qr', 'lq', 'qr', 'lq', 'eigh', 'eig', 'expm', 'pinv', 'polar', 'eigvalsh', 'eigvals', 'eigvals', 'speigs', 'speigs',
+                        'inner', 'trace', 'outer_self', 'matvec'])
+        # option variants (mode, direction / gauge of the new inner leg, labels, cut-offs, sorting of eigenvalues)
+        qc = rng.choice([+1, -1])
+        labels = rng.choice([['x', 'y'], [None, None], ['x', None]])
+
+        def some_charge():
+            if rng.random() < 0.5:
+                return None
+            l0 = a.legs[0]
+            return [int(x) for x in (l0.charges[rng.randrange(l0.block_number)] if l0.block_number else a.chinfo.make_valid())]
         H.begin()
         old_list, old_blocks, was_sorted = a._data, list(a._data), bool(a._qdata_sorted or len(a._qdata) < 2)
         self.pending = []
         npc = self.npc
         try:
             if f == 'svd':
-                out = npc.svd(a, inner_labels=['x', 'y'])
+                out = npc.svd(a, full_matrices=rng.random() < 0.3, compute_uv=rng.random() < 0.85,
+                              cutoff=rng.choice([None, None, 1.e-12]), qtotal_LR=[some_charge(), None],
+                              inner_labels=labels, inner_qconj=qc)
             elif f == 'qr':
-                out = npc.qr(a, inner_labels=['x', 'y'])
+                out = npc.qr(a, mode=rng.choice(['reduced', 'complete', 'complete']), inner_labels=labels,
+                             cutoff=rng.choice([None, None, None, 1.e-12]), pos_diag_R=rng.random() < 0.4, qtotal_Q=some_charge(),
+                             inner_qconj=qc)
             elif f == 'lq':
-                out = npc.lq(a, inner_labels=['x', 'y'])
+                out = npc.lq(a, mode=rng.choice(['reduced', 'complete', 'complete']), inner_labels=labels,
+                             cutoff=rng.choice([None, None, None, 1.e-12]), pos_diag_L=rng.random() < 0.4, qtotal_Q=some_charge(),
+                             inner_qconj=qc)
+            elif f == 'polar':
+                out = npc.polar(a, left=rng.random() < 0.5, inner_labels=labels)
+            elif f in ('eigh', 'eig', 'eigvalsh', 'eigvals'):
+                a.legs[0].test_contractible(a.legs[1])
+                kw = dict(sort=rng.choice([None, None, 'm>', 'm<', '>', '<']))
+                if f in ('eigh', 'eigvalsh'):
+                    kw['UPLO'] = rng.choice(['L', 'U'])
+                out = getattr(npc, f)(a, **kw)
             elif f == 'inner':
                 out = npc.inner(a, a.conj(), axes='range')
             elif f == 'trace':
@@ -1362,7 +1394,7 @@ class Walk:
            ('sort_legcharge', 4), ('getitem', 3), ('squeeze', 2), ('extend', 2), ('concat', 3), ('ibinary', 2),
            ('isort', 2), ('leg', 6), ('new', 3),
            ('observers', 3), ('add_leg', 2), ('from_ndarray', 2), ('permute', 2), ('complex_conj', 1), ('binary', 2),
-           ('as_completely_blocked', 2), ('grid_concat', 1), ('linalg', 4), ('leg_from', 2)]
+           ('as_completely_blocked', 2), ('grid_concat', 1), ('linalg', 7), ('leg_from', 2)]
 
     # in-place methods that write into existing containers of their target (block memory, `_data` list, legs/labels
     # lists): what makes an undocumented alias between a result and its operand visible
